@@ -409,9 +409,15 @@ func ruleXZReaderChecks(c *Ctx, r *Report, prefix string) {
 				cc := call
 				o.mustCheck(fmt.Sprintf("V22-size-field-error#%d", i+1), func(x *ssa.Call) bool { return x == cc }, "size field parse error propagated")
 			}
-			o.mustCheck("V21-filters-read", func(call *ssa.Call) bool {
-				return call.Call.StaticCallee() == readFilters && roleBinOp(token.ADD, roleBinOp(token.AND, flags, roleConst(3)), roleConst(1))(call.Call.Args[1])
-			}, "filter list read with count = (flags & 3) + 1")
+			if readFilters == fn {
+				// readFilters was folded into UnmarshalBinary: the one filter is parsed by readFilter
+				// here, and the count test (V21-filter-count, below) is on (flags & 3) + 1 itself
+				o.mustCheck("V21-filters-read", calleeIs(c.Func("", "readFilter")), "the filter is parsed by readFilter")
+			} else {
+				o.mustCheck("V21-filters-read", func(call *ssa.Call) bool {
+					return call.Call.StaticCallee() == readFilters && roleBinOp(token.ADD, roleBinOp(token.AND, flags, roleConst(3)), roleConst(1))(call.Call.Args[1])
+				}, "filter list read with count = (flags & 3) + 1")
+			}
 		}
 	}
 	if fn := c.Func("", "readSizeInBlockHeader"); fn != nil {
@@ -420,7 +426,13 @@ func ruleXZReaderChecks(c *Ctx, r *Report, prefix string) {
 	}
 	if fn := c.Func("", "readFilters"); fn != nil {
 		o := newOb(c, r, rule, fn)
-		o.rel("V21-filter-count", roleParam(fn, "count"), roleConst(1), token.NEQ, "filter count != 1 (only LZMA2 supported)")
+		if fn.Name() == "readFilters" {
+			o.rel("V21-filter-count", roleParam(fn, "count"), roleConst(1), token.NEQ, "filter count != 1 (only LZMA2 supported)")
+		} else {
+			// folded into blockHeader.UnmarshalBinary: the count is (data[1] & 3) + 1
+			cnt := roleBinOp(token.ADD, roleBinOp(token.AND, roleByte(roleParam(fn, "data"), 1), roleConst(3)), roleConst(1))
+			o.rel("V21-filter-count", cnt, roleConst(1), token.NEQ, "filter count != 1 (only LZMA2 supported)")
+		}
 		o.mustCheck("V21-filter-read", calleeIs(c.Func("", "readFilter")), "the filter is parsed by readFilter")
 	}
 	if fn := c.Func("", "readFilter"); fn != nil {
